@@ -2,7 +2,6 @@ package main
 
 import (
 	"fmt"
-	"go/ast"
 	"go/constant"
 	"go/token"
 	"go/types"
@@ -1194,32 +1193,66 @@ func c02AsHCL(c *Ctx) {
 		{"Block.AsHCLBlock", "hcl.Block", map[string]string{"Type": "Type", "Labels": "Labels", "Body": "Body"}},
 		{"Attribute.AsHCLAttribute", "hcl.Attribute", map[string]string{"Name": "Name", "Expr": "Expr"}},
 	} {
-		fd, pkg := c.P.LookupDecl("hclsyntax", w.fn)
-		if fd == nil {
+		fn := c.P.LookupFunc("hclsyntax", w.fn)
+		if fn == nil || len(fn.Params) == 0 {
 			c.CheckerFail("ashcl.fields", "anchor "+w.fn+" does not resolve")
 			continue
 		}
-		c.Fn(declName(pkg, fd))
-		recv := ""
-		if fd.Recv != nil && len(fd.Recv.List) > 0 && len(fd.Recv.List[0].Names) > 0 {
-			recv = fd.Recv.List[0].Names[0].Name
-		}
+		c.Fn(FuncName(fn))
+		recv := fn.Params[0]
+		litName := strings.TrimPrefix(w.lit, "hcl.")
+		// (from SSA: the stores into the fields of the hcl-level struct this function allocates,
+		// whether written as a composite literal or field by field)
 		got := map[string]string{}
-		ast.Inspect(fd.Body, func(n ast.Node) bool {
-			cl, ok := n.(*ast.CompositeLit)
-			if !ok || exprStr(cl.Type) != w.lit {
-				return true
-			}
-			for _, el := range cl.Elts {
-				if kv, ok := el.(*ast.KeyValueExpr); ok {
-					got[exprStr(kv.Key)] = exprStr(kv.Value)
+		for _, b := range fn.Blocks {
+			for _, ins := range b.Instrs {
+				st, ok := ins.(*ssa.Store)
+				if !ok {
+					continue
 				}
+				fa, ok := st.Addr.(*ssa.FieldAddr)
+				if !ok || !isNamed(fa.X.Type(), modPath, litName) {
+					continue
+				}
+				if _, isAlloc := fa.X.(*ssa.Alloc); !isAlloc {
+					continue
+				}
+				fv := fieldVarOf(fa.X.Type(), fa.Field)
+				if fv == nil {
+					continue
+				}
+				desc := "?"
+				val := st.Val
+				for {
+					switch x := val.(type) {
+					case *ssa.MakeInterface:
+						val = x.X
+						continue
+					case *ssa.ChangeInterface:
+						val = x.X
+						continue
+					case *ssa.ChangeType:
+						val = x.X
+						continue
+					}
+					break
+				}
+				if ld, ok := val.(*ssa.UnOp); ok && ld.Op == token.MUL {
+					if f2, ok := ld.X.(*ssa.FieldAddr); ok && (f2.X == ssa.Value(recv) || isSpillOf(f2.X, recv)) {
+						if sv := fieldVarOf(f2.X.Type(), f2.Field); sv != nil {
+							desc = recv.Name() + "." + sv.Name()
+						}
+					}
+				}
+				if old, dup := got[fv.Name()]; dup && old != desc {
+					desc = "conflicting"
+				}
+				got[fv.Name()] = desc
 			}
-			return true
-		})
+		}
 		for f, src := range w.fields {
 			c.Sites++
-			c.Check(got[f] == recv+"."+src, "ashcl.fields", "hclsyntax."+w.fn+":"+f, fd.Pos(), f+" = "+got[f], fmt.Sprintf("%s of the hcl-level view is %q, not the parsed %s.%s", f, got[f], recv, src))
+			c.Check(got[f] == recv.Name()+"."+src, "ashcl.fields", "hclsyntax."+w.fn+":"+f, fn.Pos(), f+" = "+got[f], fmt.Sprintf("%s of the hcl-level view is %q, not the parsed %s.%s", f, got[f], recv.Name(), src))
 		}
 	}
 	// PartialContent: block loop
